@@ -28,7 +28,9 @@ RULE = ("seeded random histories of 1-15 steps over a pool of 3-6 HasTraits obje
         "Instance reassignment (incl. None, same object, self links), list/dict/set reassignment (incl. equal "
         "content) and in-place item mutation with duplicates (23 container methods), irrelevant changes, reads, "
         "attach/detach, construction with keyword arguments, pickle round trip / clone_traits / deepcopy of the whole "
-        "graph at a random point; plus a fixed corpus. Non-trivial = the case produced a read, a getter call or a "
+        "graph at a random point; scripted cores (item twice / removed once, intermediate object replaced, object under "
+        "two keys, equal container reassigned, object moved) with random padding; every history of length <= 2 "
+        "(quick) / <= 3 (thorough) over 11-14 operations for 6 expressions x 3 shapes on a pool of 3; a fixed corpus. Non-trivial = the case produced a read, a getter call or a "
         "notification; distinct = distinct canonical output line")
 TRUSTED = ["the observe machinery is a parameter of the model (`Env.fires`); the driver instantiates it with the "
            "from-scratch specification `firesSpec` and every run compares getter-call counts and notifications "
@@ -193,6 +195,19 @@ def h_tree(h, paths, root=0):
         if len(seen) != len(set(seen)):
             return False
     return True
+
+
+def h_root_reentrant(h, paths, root=0):
+    """root.value is selected through at least one link."""
+    for links, leaf in paths:
+        if leaf != "v" or not links:
+            continue
+        objs = [root]
+        for l in links:
+            objs = [t for x in objs for t in h_targets(h, x, l)]
+        if root in objs:
+            return True
+    return False
 
 
 def h_copy(h):
@@ -402,6 +417,7 @@ def rebuild(shape_text, n, steps):
     out = []
     self_reach = False
     nontree = False
+    late_reader_first = False
     for st in steps:
         k = st[0]
         pre = None
@@ -466,7 +482,12 @@ def rebuild(shape_text, n, steps):
             self_reach = True
         if not h_tree(h, shape.paths):
             nontree = True
-    impl_only = self_reach or (shape.legacy and nontree)
+        if shape.rp and h_root_reentrant(h, shape.paths):
+            late_reader_first = True
+    # (the reader attached with `at` is dispatched after the property's observer only when that observer sat on
+    #  root.value before; when root.value becomes a dependency later - root reachable from itself - the order on
+    #  that trait is registration order, which is C08's hook model, not this one)
+    impl_only = self_reach or (shape.legacy and nontree) or late_reader_first
     line = "%s|%d|%s" % (shape.text, n, ";".join(out))
     return ("#" if impl_only else "") + line, {"self_reach": self_reach, "nontree": nontree}
 
@@ -797,13 +818,23 @@ def run_impl(case):
     def klass():
         if self_reach_seen:
             return "mutated-link-reachable-through-itself"
-        return ("legacy:" if shape.legacy else "") + shape.expr
+        kind = "multi-path" if len(shape.paths) > 1 else "nested-path" if shape.paths[0][0] else "own-trait"
+        return ("legacy-depends_on:" if shape.legacy else "observe:") + kind
+
+    MISSED = ("stale-cache", "stale-read", "stale-nested-read", "not-announced", "announced-wrong-new",
+              "announced-wrong-old")
 
     def sig(symptom):
         # legacy listeners skip an object that is already listened to and drop it on the first removal (C16):
         # every symptom on a shared / repeated item is that one defect
         if shape.legacy and nontree_seen:
             return "legacy-depends_on:shared-or-repeated-item"
+        # F10: once a link was re-pointed while its owner was reachable through it, hooks are misplaced;
+        # all symptoms of a missed change are one signature, all symptoms of a spurious call another
+        if self_reach_seen and symptom in MISSED:
+            return "stale-cache:mutated-link-reachable-through-itself"
+        if self_reach_seen and symptom in ("spurious-recompute", "announced-twice"):
+            return "spurious-recompute:mutated-link-reachable-through-itself"
         return symptom + ":" + klass()
 
     for stext in steps:
@@ -825,22 +856,25 @@ def run_impl(case):
         emitted = None
         tgt = None
         fresh = False
+        mut_exc = None
         if k == "sv":
-            setattr(R.pool[st[1]], "value" if st[2] == "v" else "aux", st[3])
             tgt = (st[1], st[2])
-        elif k == "si":
-            R.pool[st[1]].inst = R.conv("i", st[2])
-            tgt = (st[1], "i")
-        elif k == "sk":
-            R.pool[st[1]].kids = R.conv("k", st[2])
-            tgt = (st[1], "k")
-        elif k == "sb":
-            R.pool[st[1]].byname = R.conv("b", st[2])
-            tgt = (st[1], "b")
-        elif k == "st":
-            R.pool[st[1]].tags = set(st[2])
-            tgt = (st[1], "t")
-        elif k in ("mk", "mb", "mt"):
+        elif k in ("si", "sk", "sb", "st"):
+            tgt = (st[1], k[1])
+        try:
+            if k == "sv":
+                setattr(R.pool[st[1]], "value" if st[2] == "v" else "aux", st[3])
+            elif k == "si":
+                R.pool[st[1]].inst = R.conv("i", st[2])
+            elif k == "sk":
+                R.pool[st[1]].kids = R.conv("k", st[2])
+            elif k == "sb":
+                R.pool[st[1]].byname = R.conv("b", st[2])
+            elif k == "st":
+                R.pool[st[1]].tags = set(st[2])
+        except Exception as e:      # an assignment of a valid value never raises in the model
+            mut_exc = e
+        if k in ("mk", "mb", "mt"):
             w = stext.split()
             expect, emitted = w[3], w[4] == "1"
             o = R.pool[st[1]]
@@ -853,12 +887,16 @@ def run_impl(case):
                     set_op(o.tags, st[2])
             except (IndexError, ValueError, KeyError):
                 tags.add("container-op-raises")
+            except Exception as e:  # raised by a notifier, after the container was changed
+                mut_exc = e
             tgt = (st[1], {"mk": "k", "mb": "b", "mt": "t"}[k])
             now = snapshot(R.pool)[st[1]]
             got = show_ids(now["k"]) if k == "mk" else show_dict(now["b"]) if k == "mb" else show_ids(sorted(now["t"]))
             if got != expect:
                 return "shadow-mismatch %s: expected %s got %s" % (stext, expect, got), [], ["shadow-mismatch"]
-        elif k == "rd":
+        if mut_exc is not None:
+            read = "!!" + S.exc_name(mut_exc)
+        if k == "rd":
             try:
                 read = show_val(root.p)
             except Exception as e:
@@ -896,6 +934,9 @@ def run_impl(case):
         if not h_tree(post, shape.paths):
             nontree_seen = True
         raised_now = lg["raised"] - (0 if fresh else pre_raised)
+        if mut_exc is not None:
+            hits.append(_hit(sig("mutation-raises"), "`%s` raised %s (%s) out of the assignment / container method"
+                             % (stext, type(mut_exc).__name__, str(mut_exc)[:80]), step=stext))
         # (a) never stale: the cache entry, and every value read, is the getter's function of the current state
         entry = root.__dict__.get(CACHE, None)
         if CACHE in root.__dict__ and show_val(entry) != ref:
@@ -907,7 +948,10 @@ def run_impl(case):
         # (b) values seen by sibling handlers during the dispatch
         for t, v, who, now in nested:
             if t == "ok" and show_val(v) != show_val(now):
-                pre_sibling = (not shape.legacy) and who == "rv"
+                # a handler that runs before the property's own observer: the static ones always do; one attached
+                # later does when the property's observer reached this trait even later (after a link change).
+                # (were the invalidation missing altogether, the entry would still be stale after the step: (a))
+                pre_sibling = not shape.legacy
                 hits.append(_hit("ordering:sibling-handler-reads-before-invalidation" if pre_sibling
                                  else sig("stale-nested-read"),
                                  "a handler on the changed trait read the property during the dispatch and got a "
@@ -1180,6 +1224,113 @@ def random_history(rng, legacy=None, maxsteps=15, allow_self=0.06, tree=None, ex
     return rebuild(shape_text, n, steps)[0]
 
 
+def motif_history(rng):
+    """Scripted cores (the paths the property's statement names) with random shape, padding and copies:
+    item present twice then removed once; intermediate object replaced, the old one changed afterwards;
+    the same object under two dict keys; equal container reassigned then mutated in place; object moved
+    between two parents."""
+    nested = [e for e in EXPRS if "." in e.split("+")[0]]
+    shape_text = random_shape(rng, legacy=False, exprs=nested)
+    shape = Shape(shape_text)
+    links = shape.paths[0][0]
+    n = 5
+    steps = []
+    # reach the owner of the link we play with
+    depth = rng.randrange(len(links))
+    owner = 0
+    free = [1, 2, 3, 4]
+    rng.shuffle(free)
+
+    def assign(o, l, ts):
+        if l == "i":
+            return ("si", o, ts[0] if ts else None)
+        if l == "k":
+            return ("sk", o, list(ts))
+        return ("sb", o, dict((i, t) for i, t in enumerate(ts)))
+    for d in range(depth):
+        nxt = free.pop()
+        steps.append(assign(owner, links[d], [nxt]))
+        owner = nxt
+    l = links[depth]
+    a, b = free.pop(), free.pop()
+    below = links[depth + 1:]
+
+    def touch(t):
+        """a change below t that is relevant iff t is selected"""
+        if not below:
+            return [("sv", t, "v", rng.randint(1, 9))]
+        c = free[0] if free else a
+        return [assign(t, below[0], [c]), ("sv", c, "v", rng.randint(1, 9))] if rng.random() < 0.6 else \
+            [assign(t, below[0], [c])]
+    rd = [("rd",)]
+    kind = rng.choice(["dup-remove", "replace", "two-keys", "equal-reassign", "move"])
+    if kind == "dup-remove" and l == "k":
+        steps += [("mk", owner, "append:%d" % a), ("mk", owner, "append:%d" % a)] + rd + touch(a) + rd
+        steps += [("mk", owner, rng.choice(["del:0", "remove:%d" % a, "pop:-1", "pop:0", "dslice:0:1"]))] + rd
+        steps += touch(a) + rd + [("mk", owner, rng.choice(["del:0", "clear", "remove:%d" % a]))] + touch(a) + rd
+    elif kind in ("dup-remove", "two-keys") and l == "b":
+        steps += [("mb", owner, "set:0:%d" % a), ("mb", owner, "set:1:%d" % a)] + rd + touch(a) + rd
+        steps += [("mb", owner, rng.choice(["del:0", "pop:1", "set:0:%d" % b, "update:{1:%d}" % b]))] + rd
+        steps += touch(a) + rd + [("mb", owner, "clear")] + touch(a) + rd
+    elif kind == "equal-reassign" and l != "i":
+        steps += [assign(owner, l, [a])] + rd + [assign(owner, l, [a])]
+        steps += [("mk", owner, "append:%d" % b) if l == "k" else ("mb", owner, "set:5:%d" % b)] + rd + touch(b) + rd
+    elif kind == "move":
+        other = free.pop() if free else b
+        steps += [assign(owner, l, [a])] + touch(a) + rd + [assign(owner, l, [b])] + rd
+        steps += [assign(other, l, [a])] + touch(a) + rd + touch(b) + rd
+    else:   # replace the intermediate object, then change the old one, then the new one
+        steps += [assign(owner, l, [a])] + touch(a) + rd
+        steps += [rng.choice([assign(owner, l, [b])] + ([("mk", owner, "set:0:%d" % b)] if l == "k" else [])
+                             + ([("mb", owner, "set:0:%d" % b)] if l == "b" else []))] + rd
+        steps += touch(a) + rd + touch(b) + rd
+    # random padding: listeners, copies, an extra irrelevant change
+    out = []
+    attached = False
+    for st in steps:
+        r = rng.random()
+        if r < 0.06:
+            out.append(("dt",) if attached else ("at",))
+            attached = not attached
+        elif r < 0.10:
+            out.append(("cp", rng.choice("pcd")))
+            attached = False
+        elif r < 0.16:
+            out.append(("sv", rng.randrange(n), "a", rng.randint(0, 9)))
+        out.append(st)
+    return rebuild(shape_text, n, out)[0]
+
+
+SMALL_ALPHABETS = {
+    "i.v": [("si", 0, None), ("si", 0, 1), ("si", 0, 2), ("si", 1, 2), ("sv", 0, "v", 1), ("sv", 1, "v", 1),
+            ("sv", 2, "v", 1), ("sv", 1, "v", 0), ("rd",), ("at",), ("cp", "p")],
+    "k.v": [("sk", 0, [1]), ("sk", 0, [1, 1]), ("sk", 0, [2, 1]), ("sk", 0, []), ("mk", 0, "append:1"),
+            ("mk", 0, "append:2"), ("mk", 0, "del:0"), ("mk", 0, "remove:1"), ("mk", 0, "set:0:1"),
+            ("sv", 1, "v", 1), ("sv", 2, "v", 1), ("rd",), ("at",), ("cp", "c")],
+    "i.k.v": [("si", 0, 1), ("si", 0, 2), ("si", 0, None), ("mk", 1, "append:2"), ("mk", 1, "append:1"),
+              ("mk", 2, "append:1"), ("mk", 1, "del:0"), ("sk", 1, [2, 2]), ("sv", 1, "v", 1), ("sv", 2, "v", 1),
+              ("rd",), ("cp", "d")],
+    "b.v": [("sb", 0, {0: 1}), ("sb", 0, {0: 1, 1: 1}), ("sb", 0, {}), ("mb", 0, "set:0:1"), ("mb", 0, "set:1:1"),
+            ("mb", 0, "set:0:2"), ("mb", 0, "del:0"), ("mb", 0, "pop:1"), ("sv", 1, "v", 1), ("sv", 2, "v", 1),
+            ("rd",), ("at",)],
+    "v+i.v": [("sv", 0, "v", 1), ("sv", 0, "v", 0), ("sv", 0, "a", 1), ("si", 0, 1), ("si", 0, None), ("si", 0, 0),
+              ("sv", 1, "v", 1), ("rd",), ("at",), ("dt",), ("cp", "p")],
+    "T": [("st", 0, [1]), ("st", 0, [1, 2]), ("st", 0, []), ("mt", 0, "add:1"), ("mt", 0, "add:2"),
+          ("mt", 0, "discard:1"), ("mt", 0, "ixor:[1,2]"), ("mt", 0, "clear"), ("mt", 1, "add:1"), ("rd",), ("at",)],
+}
+SMALL_SHAPES = ["%s 1 o 1 0 0 0 V 0 -", "%s 1 o 0 0 1 1 V 0 -", "%s 0 o 0 0 0 0 S 0 -"]
+
+
+def exhaustive_small(maxlen):
+    """Every history of length <= maxlen over a small alphabet (pool of 3), followed by a read."""
+    import itertools
+    for expr, alpha in SMALL_ALPHABETS.items():
+        for sh in SMALL_SHAPES:
+            for L in range(1, maxlen + 1):
+                for seq in itertools.product(alpha, repeat=L):
+                    yield rebuild(sh % expr, 3, list(seq) + [("rd",)])[0]
+
+
 def corpus():
     raw = [
         # item present twice, removed once, then changed
@@ -1196,6 +1347,8 @@ def corpus():
         "v 1 o 0 0 0 0 V 0 0:ValueError|2|rd;rd;sv 0 v 3;rd",
         # F10: link re-pointed while reachable through itself (impl + oracle only)
         "i.i.v 1 o 0 0 0 0 V 0 -|3|si 0 0;rd;si 0 2;rd;sv 2 v 6;rd",
+        # F10, raising form, and the stale cache it leaves behind (impl + oracle only)
+        "b.b.v 1 o 1 0 0 0 V 0 -|3|mb 0 set:3:0 {3:0} 1;mb 0 set:3:2 {3:2} 1;mb 2 setdefault:0:1 {0:1} 1;rd",
         # legacy, item present twice removed once (impl + oracle only)
         "k.v 1 l 0 0 0 0 V 0 -|3|mk 0 append:1 [1] 1;mk 0 append:1 [1,1] 1;rd;mk 0 del:0 [1] 1;rd;sv 1 v 5;rd",
         # uncached with listeners
@@ -1208,8 +1361,11 @@ def corpus():
 
 def generate(rng, tier):
     n = {"quick": 2000, "thorough": 50000, "intense": 20000}.get(tier, 2000)
+    yield from exhaustive_small(3 if tier == "thorough" else 2)
     for i in range(n):
         yield random_history(rng)
+    for i in range(n // 4):
+        yield motif_history(rng)
     # legacy shape on tree-shaped graphs gets its own stream (separate class shape)
     for i in range(n // 8):
         yield random_history(rng, legacy=True, allow_self=0.0)
